@@ -704,6 +704,18 @@ func (h *vPool) exec(line string) string {
 		}
 		vCursorAdd(h.gb, d)
 		res = "ok"
+	case "dejump":
+		// stand-in for d deadline-exceeded completions that were counted on the channel of that slot
+		slot, err1 := strconv.Atoi(a["slot"])
+		d, err2 := strconv.ParseUint(a["d"], 10, 32)
+		if err1 != nil || err2 != nil || slot < 0 || slot >= len(h.gb.scRefList) || len(h.held) > 0 {
+			return "bad-op"
+		}
+		ref := h.gb.scRefList[slot]
+		ref.mu.Lock()
+		ref.deCalls += uint32(d)
+		ref.mu.Unlock()
+		res = "ok"
 	case "pick2":
 		res = h.doPick2(a)
 	case "done2":
@@ -2370,6 +2382,13 @@ func (g *vGen) next(i int) string {
 			line = "pool reserr"
 			if r.Intn(3) == 0 {
 				line = "pool other"
+			}
+			if h.gb.unresponsiveDetection && len(h.held) == 0 && len(h.gb.scRefList) > 0 && r.Intn(4) == 0 {
+				// fast-forward a channel's counter of deadline-exceeded calls to just below the largest uint32 value (F38)
+				slot := r.Intn(len(h.gb.scRefList))
+				if cur := h.gb.scRefList[slot].deCalls; cur < 1<<31 {
+					line = fmt.Sprintf("pool dejump slot=%d d=%d", slot, uint32(4294967295-uint32(r.Intn(3)))-cur)
+				}
 			}
 			if h.gb.cfg.GetChannelPool().GetBindPickStrategy() == pb.ChannelPoolConfig_ROUND_ROBIN && len(h.held) == 0 && r.Intn(3) == 0 {
 				// fast-forward the round-robin cursor to just below a multiple of 2^32 (F32): the next BIND picks
